@@ -26,17 +26,23 @@ import (
 	"time"
 
 	"google.golang.org/protobuf/proto"
+	"google.golang.org/protobuf/types/known/durationpb"
 	"google.golang.org/protobuf/types/known/fieldmaskpb"
 
 	"github.com/smart-core-os/sc-api/go/traits"
+	"github.com/smart-core-os/sc-api/go/types"
 	"github.com/smart-core-os/sc-golang/pkg/cmp"
 	"github.com/smart-core-os/sc-golang/pkg/group"
 	"github.com/smart-core-os/sc-golang/pkg/resource"
 	"github.com/smart-core-os/sc-golang/pkg/router"
 	"github.com/smart-core-os/sc-golang/pkg/time/clock"
+	"github.com/smart-core-os/sc-golang/pkg/trait/airtemperaturepb"
+	"github.com/smart-core-os/sc-golang/pkg/trait/countpb"
 	"github.com/smart-core-os/sc-golang/pkg/trait/electricpb"
+	"github.com/smart-core-os/sc-golang/pkg/trait/emergencypb"
 	"github.com/smart-core-os/sc-golang/pkg/trait/lightpb"
 	"github.com/smart-core-os/sc-golang/pkg/trait/onoffpb"
+	"github.com/smart-core-os/sc-golang/pkg/trait/speakerpb"
 )
 
 func init() {
@@ -347,6 +353,144 @@ func wlElectricActivate(w *wl) {
 			if len(held) > 0 {
 				readMsg(held[rng.Intn(len(held))])
 			}
+		}
+	})
+}
+
+// ---- memory devices -----------------------------------------------------------------------------
+
+func init() {
+	scenarios = append(scenarios, scenario{"memory-devices", 1, []string{"lightpb.", "local:lightpb.", "countpb.", "emergencypb.", "speakerpb.", "airtemperaturepb.", "resource.", "minibus.", "wrap."}, wlMemoryDevices})
+}
+
+// wlMemoryDevices drives the MemoryDevice servers (light incl. the tweening goroutine, count, emergency,
+// speaker, air temperature): unary calls directly on the server (so that a handler panic stays in the
+// worker), subscriptions through the in-process wrapper.
+func wlMemoryDevices(w *wl) {
+	light := lightpb.NewMemoryDevice()
+	tweener := lightpb.NewMemoryDevice() // written only by goroutine 0, one tween at a time
+	count := countpb.NewMemoryDevice()
+	emergency := emergencypb.NewMemoryDevice()
+	speaker := speakerpb.NewMemoryDevice(&types.AudioLevel{Gain: 10})
+	air := airtemperaturepb.NewMemoryDevice()
+	lightC, tweenC := lightpb.WrapApi(light), lightpb.WrapApi(tweener)
+	countC, emergencyC, speakerC, airC := countpb.WrapApi(count), emergencypb.WrapApi(emergency), speakerpb.WrapApi(speaker), airtemperaturepb.WrapApi(air)
+	bg := context.Background()
+	safe := func(f func()) {
+		defer func() { _ = recover() }() // rejected updates that a server turns into a nil assertion are C14's business
+		f()
+	}
+	recvSome := func(cancel context.CancelFunc, recv func() (proto.Message, error)) {
+		for k := 0; k < 5; k++ {
+			msg, err := recv()
+			if err != nil {
+				break
+			}
+			readMsg(msg)
+		}
+		cancel()
+		for {
+			if _, err := recv(); err != nil {
+				break
+			}
+		}
+	}
+	w.par(func(id int, rng *rand.Rand) {
+		for i := 0; w.more(i); i++ {
+			ctx, cancel := context.WithTimeout(bg, time.Duration(rng.Intn(5)+1)*time.Millisecond)
+			if id == 0 && i%4 == 0 {
+				// a tween: the device's own goroutine keeps writing while the others read and subscribe
+				safe(func() {
+					res, err := tweener.UpdateBrightness(bg, &traits.UpdateBrightnessRequest{Name: "t", Brightness: &traits.Brightness{
+						LevelPercent: float32(rng.Intn(100)), BrightnessTween: &types.Tween{TotalDuration: durationpb.New(5 * time.Millisecond)}}})
+					readMsg(res)
+					if err == nil {
+						// wait for the tween to finish before the next one (two tweens on one device abort each other)
+						for k := 0; k < 400; k++ {
+							b, _ := tweener.GetBrightness(bg, &traits.GetBrightnessRequest{Name: "t"})
+							if b.GetBrightnessTween() == nil {
+								break
+							}
+							time.Sleep(time.Millisecond)
+						}
+					}
+				})
+				cancel()
+				continue
+			}
+			switch rng.Intn(12) {
+			case 0:
+				safe(func() {
+					res, _ := light.UpdateBrightness(bg, &traits.UpdateBrightnessRequest{Name: "l", Delta: rng.Intn(2) == 0, Brightness: &traits.Brightness{LevelPercent: float32(rng.Intn(100))}})
+					readMsg(res)
+				})
+			case 1:
+				res, _ := light.GetBrightness(bg, &traits.GetBrightnessRequest{Name: "l"})
+				readMsg(res)
+				res, _ = tweener.GetBrightness(bg, &traits.GetBrightnessRequest{Name: "t", ReadMask: &fieldmaskpb.FieldMask{Paths: []string{"level_percent"}}})
+				readMsg(res)
+			case 2:
+				c := lightC
+				if rng.Intn(2) == 0 {
+					c = tweenC
+				}
+				if stream, err := c.PullBrightness(ctx, &traits.PullBrightnessRequest{Name: "l", UpdatesOnly: rng.Intn(2) == 0}); err == nil {
+					recvSome(cancel, func() (proto.Message, error) { return stream.Recv() })
+				}
+			case 3:
+				safe(func() {
+					res, _ := count.UpdateCount(bg, &traits.UpdateCountRequest{Name: "c", Delta: rng.Intn(2) == 0, Count: &traits.Count{Added: int32(rng.Intn(3)), Removed: int32(rng.Intn(2))}})
+					readMsg(res)
+				})
+			case 4:
+				safe(func() {
+					if rng.Intn(4) == 0 {
+						res, _ := count.ResetCount(bg, &traits.ResetCountRequest{Name: "c"})
+						readMsg(res)
+					}
+					res, _ := count.GetCount(bg, &traits.GetCountRequest{Name: "c"})
+					readMsg(res)
+				})
+			case 5:
+				if stream, err := countC.PullCounts(ctx, &traits.PullCountsRequest{Name: "c", UpdatesOnly: rng.Intn(2) == 0}); err == nil {
+					recvSome(cancel, func() (proto.Message, error) { return stream.Recv() })
+				}
+			case 6:
+				safe(func() {
+					res, _ := emergency.UpdateEmergency(bg, &traits.UpdateEmergencyRequest{Name: "e", Emergency: &traits.Emergency{Level: traits.Emergency_Level(rng.Intn(4)), Reason: fmt.Sprint(i)}})
+					readMsg(res)
+				})
+			case 7:
+				res, _ := emergency.GetEmergency(bg, &traits.GetEmergencyRequest{Name: "e"})
+				readMsg(res)
+				if stream, err := emergencyC.PullEmergency(ctx, &traits.PullEmergencyRequest{Name: "e"}); err == nil {
+					recvSome(cancel, func() (proto.Message, error) { return stream.Recv() })
+				}
+			case 8:
+				safe(func() {
+					res, _ := speaker.UpdateVolume(bg, &traits.UpdateSpeakerVolumeRequest{Name: "s", Delta: rng.Intn(2) == 0, Volume: &types.AudioLevel{Gain: float32(rng.Intn(5))}})
+					readMsg(res)
+				})
+			case 9:
+				res, _ := speaker.GetVolume(bg, &traits.GetSpeakerVolumeRequest{Name: "s"})
+				readMsg(res)
+				if stream, err := speakerC.PullVolume(ctx, &traits.PullSpeakerVolumeRequest{Name: "s"}); err == nil {
+					recvSome(cancel, func() (proto.Message, error) { return stream.Recv() })
+				}
+			case 10:
+				safe(func() {
+					h := float32(rng.Intn(100))
+					res, _ := air.UpdateAirTemperature(bg, &traits.UpdateAirTemperatureRequest{Name: "a", State: &traits.AirTemperature{AmbientHumidity: &h}})
+					readMsg(res)
+				})
+			case 11:
+				res, _ := air.GetAirTemperature(bg, &traits.GetAirTemperatureRequest{Name: "a"})
+				readMsg(res)
+				if stream, err := airC.PullAirTemperature(ctx, &traits.PullAirTemperatureRequest{Name: "a", UpdatesOnly: rng.Intn(2) == 0}); err == nil {
+					recvSome(cancel, func() (proto.Message, error) { return stream.Recv() })
+				}
+			}
+			cancel()
 		}
 	})
 }
